@@ -372,3 +372,40 @@ def rule_f(ctx, ix):
                    where='%s:%d' % (m.relpath, c.lineno))
     if n < 3:
         raise AnalysisError('C19.f: only %d dtype family tests found in the readers / writers' % n)
+    # a dtype that is rebuilt from parts of another one keeps what the parts say: kind, itemsize, char, name and type do not carry
+    # the byte order (files - FITS, HDF5 written elsewhere - are often big-endian), only the dtype itself / .str / .descr do
+    LOSSY = ('kind', 'itemsize', 'char', 'name', 'type', 'num')
+    KEEPS = ('str', 'descr', 'byteorder', 'newbyteorder')
+    probe = ast.parse("d = np.dtype('{0.kind}{0.itemsize}'.format(info['dtype']))").body[0]
+
+    def rebuilt(node):
+        out = []
+        for c in ast.walk(node):
+            ex = None
+            if isinstance(c, ast.Call) and call_name(c) == 'dtype' and c.args:
+                ex = c.args[0]
+            elif isinstance(c, ast.keyword) and c.arg == 'dtype':
+                ex = c.value
+            if ex is None:
+                continue
+            txt = unparse(ex)
+            parts = {a.attr for a in ast.walk(ex) if isinstance(a, ast.Attribute)} | \
+                {p_ for p_ in LOSSY + KEEPS if ('.%s}' % p_) in txt or ('.%s!' % p_) in txt or ('.%s:' % p_) in txt}
+            if parts & set(LOSSY) and not parts & set(KEEPS) and (parts & {'kind', 'char', 'name', 'type', 'num'}):
+                out.append((c, ex, sorted(parts & set(LOSSY))))
+        return out
+    if not rebuilt(probe):
+        raise AnalysisError('C19.f: the detector of rebuilt dtypes no longer recognises its reference example')
+    nmod = 0
+    for m in sorted(ix.modules.values(), key=lambda m_: m_.name):
+        if not (m.name.startswith('glue.core.data_factories') or m.name.startswith('glue.core.data_exporters')) or '.tests' in m.name:
+            continue
+        nmod += 1
+        for c, ex, parts in rebuilt(m.tree):
+            ctx.ob(R, '%s `%s`' % (m.name, unparse(ex)[:60]), 'a dtype is passed on as it is, not rebuilt from parts that drop the byte order', False,
+                   detail='%s builds a dtype from %s of another dtype (`%s`): the byte order is lost, so big-endian values (every array that '
+                          'came from a FITS file, then exported and read back) are reinterpreted as native ones - 1.5 comes back as '
+                          '3e-319, without an error' % (m.name, '/'.join(parts), unparse(ex)),
+                   where='%s:%d' % (m.relpath, getattr(c, 'lineno', getattr(ex, 'lineno', 0))))
+    ctx.ob(R, 'readers / writers dtypes', 'every dtype= / np.dtype(...) expression of the readers and writers was examined (%d modules)' % nmod, nmod >= 5,
+           detail='only %d reader / writer modules seen' % nmod)
